@@ -253,7 +253,8 @@ class Grid(ABC):
         """
         i, j = indices[:2]
         label = f"{i:03d}-{j:03d}"
-        if len(indices) == 3:
+        if len(indices) == 3 and indices[2] is not None:
+            # (locatorLabelToIndices pads a two-index label with None)
             label += f"-{indices[2]:03d}"
         return label
 
